@@ -9,7 +9,7 @@ SLICE = "PARSE / PARSEM (Packet::parse, with allocation meter), PEEK (header_buf
 RULE = ("for a valid reference encoding of every one of the 40 typed variants (plain and with arbitrary compression): every "
         "truncation point and +-1 on every length-like field (label, string, RDLENGTH, item length, section count); all buffers "
         "of 0..=12 bytes over a small alphabet for the peeks; bounded-exhaustive pointer graphs; headers with maximal counts; "
-        "seeded random bytes. non-trivial = the input is accepted or rejected after at least the header was read; "
+        "seeded random bytes; every one- and two-byte integer field of every type swept with and without trailing data. non-trivial = the input is accepted or rejected after at least the header was read; "
         "distinct = distinct canonical outputs")
 CASE_TIMEOUT = 600
 RELEASE_TOO = True
@@ -45,6 +45,13 @@ def cases(rng, tier):
                 out.append("PARSEM " + b.hex())
                 for m in dns.malformations(b, marks, rng, budget=None if tier == "thorough" else 300):
                     out.append("PARSEM " + (m.hex() or "-"))
+    # every one- and two-byte integer field of every type swept, with and without data behind it (dns.field_sweeps): a message
+    # holding just that record
+    for n, (tname, vals) in enumerate(dns.field_sweeps(tier)):
+        rd = dns.enc_rdata_ref(tname, vals)
+        msg = b"\x00\x09\x84\x00\x00\x00\x00\x01\x00\x00\x00\x00" + b"\x01o\x00" + dns.SCHEMA[tname][0].to_bytes(2, "big") \
+            + b"\x00\x01\x00\x00\x00\x3c" + len(rd).to_bytes(2, "big") + rd
+        out.append("PARSE " + msg.hex())
     # headers with hostile counts
     for cnt in ([0xFFFF] * 4, [1, 0, 0, 0], [0, 0xFFFF, 0, 0], [0, 0, 0, 0xFFFF], [0x100, 0x100, 0x100, 0x100]):
         hdr = b"\x00\x01\x00\x00" + b"".join(c.to_bytes(2, "big") for c in cnt)
